@@ -7,7 +7,7 @@ from ..refs.wrappers import PooOracle, stub_classes
 ID = "C10"
 LEVEL = "model_checking"
 RULE = ("POO x rho_max in {0.84,0.9,0.95,0.99} x base in {T_HOO,HCT,VHCT} x {stub learners, real learners}: every reward sequence in "
-        "{0,1,-1}^T (E-full) and every script within k deviations of base scripts over horizons up to 400 rounds (first creation batch, "
+        "{0,1,-1}^T (E-full), every horizon T in 2..130 with budget rounds = T (the run reaches its declared budget) and every script within k deviations of base scripts over horizons up to 400 rounds (first creation batch, "
         "round-robin passes, second and third batches).  Per round: exactly one learner pulled, the reward delivered to exactly that "
         "learner, learners only added with nu_max and a distinct grid rho in (0, rho_max), V_reward/Times equal mean/length of each "
         "learner's own reward ledger, get_last_point = next proposal of a max-score learner.  distinct_nontrivial = executions with >= 2 learners.")
@@ -35,6 +35,11 @@ def tasks(tier, seed):
                     ts.append({"kind": "algo", "label": "dev/%s/%s" % (lab, b), "cfg": cfg, "mode": "dev", "T": T, "R": [1.0, -1.0],
                                "base": b, "k": 1 if (tier == "quick" or not stub) else 2, "stub": stub, "cost": 30,
                                "max_exec": 1000 if tier == "quick" else 20000})
+    # the budget is reached: rounds = T, time labels 1..T (every T in a range: E-sched over the horizon)
+    for base in configs.TREE_BANDITS:
+        for rm in ((0.9,) if tier == "quick" else RHOS):
+            Ts = [T for T in range(2, 131) if tier == "thorough" or (T + seed) % 3 == configs.TREE_BANDITS.index(base)]
+            ts.append({"kind": "horizon", "label": "horizon/%s/%s" % (base, rm), "base": base, "rm": rm, "Ts": Ts, "cost": 25})
     for part, K, box in (("Kary", 3, "u1"), ("DimensionBinary", None, "u2")):
         cfg = configs.cfg("POO", part, K, configs.BOXES[box], numax=0.5, rhomax=0.9, rounds=100, base="HCT")
         ts.append({"kind": "algo", "label": "full/HCT/%s" % part, "cfg": cfg, "mode": "full", "T": 7 if tier == "quick" else 9,
@@ -54,7 +59,28 @@ def _nontrivial(ctx):
     return None
 
 
+def _horizon_task(task):
+    import time as _t
+    from ..world import Stats
+
+    st = Stats()
+    for T in task["Ts"]:
+        if task.get("deadline_abs") and _t.time() > task["deadline_abs"]:
+            st.exhaustive = False
+            st.caps.append({"task": task["label"], "cap": "wall-clock budget", "first_T_not_run": T})
+            break
+        cfg = configs.cfg("POO", "Binary", None, configs.BOXES["u1"], numax=1, rhomax=task["rm"], rounds=T, base=task["base"])
+        t = {"cfg": cfg, "mode": "dev", "T": T, "R": [1.0], "base": "twopeak", "k": 0, "label": task["label"], "stub": True}
+        run_algo_task(t, _mk, nontrivial=_nontrivial, learner_classes=stub_classes, stats=st, digest=(T % 10 == 0))
+        st.bump("horizons")
+    for v in st.violations:
+        v["task"] = dict(v["task"], stub=True, kind="algo")
+    return st
+
+
 def run_task(task):
+    if task["kind"] == "horizon":
+        return _horizon_task(task)
     return run_algo_task(task, _mk, nontrivial=_nontrivial, learner_classes=stub_classes if task.get("stub") else recording_classes)
 
 
